@@ -100,50 +100,60 @@ def families(tier):
     segs = C.alph(SEGS, pm)
     flat1 = segs + C.alph(EDGES[0], pm)
     flat2 = segs + C.alph(EDGES[1], pm)
+    core = C.alph(["a", "b", "c"], pm) + C.alph(["e1", "e2", "e4"], pm)
     fams = []
     # F1: one O line over every oriented segment and edge of the graph
-    fams.append(family("flatO-g1", 1, [slot("O", "o", flat1, 1, 3 if q else 4)], nsh=4 if q else 44))
-    fams.append(family("flatO-g2", 2, [slot("O", "o", flat2, 1, 2 if q else 3)], nsh=1 if q else 6))
-    if not q:
+    if q:
+        fams.append(family("flatO-g1", 1, [slot("O", "o", flat1, 1, 2)]))
+        fams.append(family("flatO-g1-core3", 1, [slot("O", "o", core, 3, 3)], nsh=2))
+        fams.append(family("flatO-g2", 2, [slot("O", "o", flat2, 1, 2)]))
+    else:
+        fams.append(family("flatO-g1", 1, [slot("O", "o", flat1, 1, 4)], nsh=44))
+        fams.append(family("flatO-g2", 2, [slot("O", "o", flat2, 1, 3)], nsh=6))
         fams.append(family("flatO-g1-arr", 1, [slot("O", "o", flat1, 1, 3)], arrs=(2, 3, 4), nsh=6))
     # F2: a definition cut into 2..3 lines, every arrival order, tag sets
-    sa = C.ix("a+ b+ e2+") if q else C.ix("a+ b+ e2+ c-")
-    ua = C.ix("a e2 b") if q else C.ix("a e2 b c")
+    sa = C.ix("a+ b+ e2+")
+    ua = C.ix("a e2 b")
     fams.append(family("splitO", 1, [slot("O", "o", sa, 2, 3 if q else 4)], split=3, splitmin=2,
-                       tagsets=TAGVARS, orders="all", arrs=(1, 2) if q else (1, 2, 3), nsh=1 if q else 4))
+                       tagsets=TAGVARS, orders="all", arrs=(1, 2), nsh=3 if q else 6))
     fams.append(family("splitU", 1, [slot("U", "u", ua, 2, 3 if q else 4)], split=3, splitmin=2,
-                       tagsets=TAGVARS, orders="all", arrs=(1, 2) if q else (1, 2, 3), nsh=1 if q else 4))
+                       tagsets=TAGVARS, orders="all", arrs=(1,) if q else (1, 2), nsh=2 if q else 6))
     # F3: nested paths, depth 2: o lists p (both orientations) among segments and edges
-    sub = C.alph(["a", "b", "c"], pm) + C.alph(["e1", "e2", "e4"], pm)
-    outer = C.alph(["a", "b", "c"], pm) + C.alph(["e1", "e2"], pm) + C.alph(["p"], pm)
+    sub = C.ix("a+ b+ b- c- e1+ e1- e2+ e4-") if q else core
+    outer = C.ix("a+ a- b+ b- c+ e1+ e2- p+ p-")
     fams.append(family("nestO2", 1, [slot("O", "o", outer, 1, 2 if q else 3, must=C.alph(["p"], pm)),
                                       slot("O", "p", sub, 1, 2)],
-                       orders="id" if q else "rev", nsh=2 if q else 12))
+                       orders="id" if q else "rev", nsh=2 if q else 24))
     # F3b: depth 3: o lists p lists q
     qa = C.ix("a+ b+ e1+ e1- b- a-")
-    pa = C.ix("q+ q- b+ c+ e2+ c- zz+")
-    oa = C.ix("p+ p-") if q else C.ix("p+ p- c+ c- a+")
+    pa = C.ix("q+ q- c+ e2+ zz+") if q else C.ix("q+ q- b+ c+ e2+ c- zz+")
+    oa = C.ix("p+ p-") if q else C.ix("p+ p- c+ a+")
     fams.append(family("nestO3", 1, [slot("O", "o", oa, 1, 1 if q else 2, must=C.ix("p+ p-")),
                                       slot("O", "p", pa, 1, 2, must=C.ix("q+ q-")),
                                       slot("O", "q", qa, 1, 2)],
-                       orders="id" if q else "all", arrs=(1,) if q else (1, 2), nsh=1 if q else 6))
+                       orders="id" if q else "all", nsh=2 if q else 16))
     # cyclic / self-referential paths, sets listed in paths
-    fams.append(family("cycO", 1, [slot("O", "o", C.ix("p+ p- a+ o+ u+"), 1, 2, must=C.ix("p+ p- o+ u+")),
-                                    slot("O", "p", C.ix("o+ o- b+ p-"), 1, 2),
+    fams.append(family("cycO", 1, [slot("O", "o", C.ix("p+ a+ o+ u+") if q else C.ix("p+ p- a+ o+ u+"), 1, 2,
+                                        must=C.ix("p+ p- o+ u+")),
+                                    slot("O", "p", C.ix("o+ b+ p-") if q else C.ix("o+ o- b+ p-"), 1, 2),
                                     slot("U", "u", C.ix("a"), 1, 1)]))
     # F4: one U line over every segment, edge and an undefined identifier
     names1 = SEGS + EDGES[0] + [UNDEF]
     names2 = SEGS + EDGES[1] + [UNDEF]
-    fams.append(family("flatU-g1", 1, [slot("U", "u", C.alph(names1, ("",)), 1, 3 if q else 4)], nsh=1 if q else 4))
+    fams.append(family("flatU-g1", 1, [slot("U", "u", C.alph(names1, ("",)), 1, 3 if q else 4)], nsh=2 if q else 4))
     fams.append(family("flatU-g2", 2, [slot("U", "u", C.alph(names2, ("",)), 1, 2 if q else 3)],
-                       arrs=(1,) if q else (1, 2, 3, 4)))
-    # F5: sets over paths and sets, nesting depth 3, cyclic nesting
+                       arrs=(1,) if q else (1, 2, 3, 4), nsh=1 if q else 4))
+    # F5: sets over paths and sets (paths with and without unique walk)
     pl = C.ix("a+ b+ c- zz+ e1-")
-    fams.append(family("nestU", 1, [slot("U", "u", C.ix("a p v") if q else C.ix("a e7 p v"), 1, 2, must=C.ix("p v")),
-                                     slot("U", "v", C.ix("b w u") if q else C.ix("b p u w"), 1, 2),
-                                     slot("U", "w", C.ix("c u v"), 1, 1 if q else 2),
-                                     slot("O", "p", pl, 1, 2)],
-                       orders="id" if q else "rev", nsh=2 if q else 16))
+    fams.append(family("nestU-paths", 1, [slot("U", "u", C.ix("a p v"), 1, 2, must=C.ix("p v")),
+                                           slot("U", "v", C.ix("b p e7"), 1, 2),
+                                           slot("O", "p", pl, 1, 2)],
+                       orders="id" if q else "all", arrs=(1,) if q else (1, 2), nsh=3 if q else 8))
+    # F5b: nesting depth 3 and cyclic nesting of sets
+    fams.append(family("nestU-cyc", 1, [slot("U", "u", C.ix("a v") if q else C.ix("a v w"), 1, 2, must=C.ix("v w")),
+                                         slot("U", "v", C.ix("b w u"), 1, 2),
+                                         slot("U", "w", C.ix("c u v") if q else C.ix("c u v d"), 1, 2)],
+                       orders="id" if q else "all", arrs=(1,) if q else (1, 2), nsh=1 if q else 6))
     return fams
 
 
@@ -168,6 +178,8 @@ def mc_cases(fam, sh, wd):
         json.dump(CAT.json_for(f), fh)
     rc, out = tlc.run_tlc("MC_Groups", MC_CFG, wd, env={"CATALOG_FILE": cf}, workers=1, heap="1500m")
     st = tlc.stats(out)
+    if st is None and "0 distinct states found" in out:
+        st = (0, 0)
     if rc != 0 or st is None or "No error has been found" not in out:
         raise tlc.MachineryError("MC_Groups failed on %s/%d:\n%s" % (fam["name"], sh, "\n".join(out.splitlines()[-40:])))
     cases = []
@@ -232,6 +244,13 @@ class Guard:
             c = project.errclass(e)
             self.notes.append(type(e).__name__ + ("@" + _callsite(e) if c == "FOREIGN" else ""))
             return c, None
+
+
+def _limits():
+    """Watchdog handler; a recursion limit that the nesting depths used here (<= 3 groups) stay far
+    below, so that unbounded recursion over cyclic nesting surfaces as RecursionError quickly."""
+    signal.signal(signal.SIGALRM, _alarm)
+    sys.setrecursionlimit(400)
 
 
 def _ref_name(x):
@@ -351,7 +370,7 @@ def shard_job(job):
     cases, st = mc_cases(fam, sh, os.path.join(wd, "mc"))
     t1 = time.time()
     gfapy = _load_gfapy()
-    signal.signal(signal.SIGALRM, _alarm)
+    _limits()
     pool = project.Pool()
     recs = []
     seen = {}
@@ -522,7 +541,7 @@ PROPS = {"C17": (check_c17, "exploration")}
 
 def _run_single(case, name):
     gfapy = _load_gfapy()
-    signal.signal(signal.SIGALRM, _alarm)
+    _limits()
     pool = project.Pool()
     rec = run_case(gfapy, case, pool, 0)
     rej, _ = validate_records([rec], pool, tlc.workdir(name))
@@ -563,7 +582,7 @@ def selftest():
          "cls": [["u", "U", "set", True, False]], "from_tlc": False},
     ]
     gfapy = _load_gfapy()
-    signal.signal(signal.SIGALRM, _alarm)
+    _limits()
     pool = project.Pool()
     recs = [run_case(gfapy, c, pool, i) for i, c in enumerate(base)]
     want = {0: [], 1: []}
